@@ -84,7 +84,7 @@ def run_cases(ctx, n_libs: int, per_lib: int, focus: str):
                 return a
 
         gen = TypedGen(rng, lib)
-        reqs, keep, spec_reqs, eff_reqs = [], [], [], []
+        reqs, keep, spec_reqs, eff_reqs, elab_reqs = [], [], [], [], []
         for _ in range(per_lib):
             op = rng.choice(["Select", "Select", "Where", "SelectMany"])
             try:
@@ -158,6 +158,7 @@ def run_cases(ctx, n_libs: int, per_lib: int, focus: str):
             reqs.append(("streamOp", [model, op, '(cls "Evt" ())', lam_enc]))
             spec_reqs.append(("streamOpTy", [model, op, '(cls "Evt" ())', lam_enc]))
             eff_reqs.append(("streamOpEff", [model, '(cls "Evt" ())', lam_enc]))
+            elab_reqs.append(("streamOpElab", [model, '(cls "Evt" ())', lam_enc]))
             if got[0] == "ok":
                 s = got[1]
                 node = s.query_ast.args[0]
@@ -193,6 +194,17 @@ def run_cases(ctx, n_libs: int, per_lib: int, focus: str):
             ctx.dist["spec:item-type-compared"] += 1
             if (st, payload) != ("ok", impl_ty):
                 ctx.disagree("streamOpTy(spec)", {k: v for k, v in case.items() if k != "class_model"}, impl_ty[:300], (st, payload[:300]))
+        # ---- the emitted lambda `elabOf` (the specification of C07, Model/ElabSpec.lean) against the implementation:
+        # whenever the implementation accepts the lambda, the lambda in the emitted query is the elaboration of the
+        # lambda as written
+        lres = ctx.driver.batch(elab_reqs)
+        for (case, want), (st, payload) in zip(keep, lres):
+            if want[0] != "ok":
+                continue
+            impl_lam = render(sparse(want[1])[0])
+            ctx.dist["spec:emitted-lambda-compared"] += 1
+            if (st, payload) != ("ok", impl_lam):
+                ctx.disagree("streamOpElab(spec)", {k: v for k, v in case.items() if k != "class_model"}, impl_lam[:400], (st, payload[:400]))
         # ---- the declared callback sites `effOf` (the specification of C09, Model/EffectSpec.lean) against the
         # implementation: whenever the implementation accepts the lambda, the MetaData on the source chain and the callbacks
         # that fired are the ones the specification lists for the lambda as written, in the same order
